@@ -42,7 +42,10 @@ def gen_deck(rng):
     if m < 0.07:
         # members of unions that become empty once identical surfaces are merged: the clean-up passes decide
         return G.contradictory_union_deck(rng)
-    if m < 0.15:
+    if m < 0.13:
+        # a plane of the deck's own where the auxiliary union planes usually go, and unions that need them
+        return G.aux_plane_deck(rng)
+    if m < 0.2:
         # surfaces referred to as seen from a cell with a TRCL (1000*cell+surface): generated, hence commented, surfaces
         from . import c04
         return c04.implicit_deck(rng)[0]
